@@ -3,4 +3,459 @@ import RQ.Spec.Dist
 namespace RQ
 variable {ν : Type} [DecidableEq ν]
 
+/-! ### list helpers -/
+
+theorem getD_set_self (l : List Nat) (i a j : Nat) :
+    (l.set i a).getD j j = if j = i ∧ i < l.length then a else l.getD j j := by
+  simp only [List.getD_eq_getElem?_getD, List.getElem?_set]
+  by_cases h : i = j
+  · subst h
+    by_cases h2 : i < l.length
+    · simp [h2]
+    · simp [h2]
+  · have h' : ¬ j = i := fun e => h e.symm
+    simp [h, h']
+
+theorem getD_append_self (l : List Nat) (j : Nat) :
+    (l ++ [l.length]).getD j j = l.getD j j := by
+  simp only [List.getD_eq_getElem?_getD]
+  by_cases h : j < l.length
+  · simp [List.getElem?_append_left h]
+  · have h1 : l.length ≤ j := by omega
+    rw [List.getElem?_append_right h1]
+    have : l[j]? = none := by simp; omega
+    rw [this]
+    by_cases h2 : j = l.length
+    · subst h2; simp
+    · have : j - l.length ≠ 0 := by omega
+      cases hk : j - l.length with
+      | zero => omega
+      | succ k => simp
+
+theorem idxOf?_of_mem {l : List ν} {n : ν} (h : n ∈ l) : l.idxOf? n = some (l.idxOf n) := by
+  induction l with
+  | nil => cases h
+  | cons x l ih =>
+    rw [List.idxOf?_cons, List.idxOf_cons]
+    by_cases hx : x = n
+    · simp [hx]
+    · have hm : n ∈ l := by
+        rcases List.mem_cons.1 h with e | e
+        · exact absurd e.symm hx
+        · exact e
+      have hb : (x == n) = false := by simp [hx]
+      simp [hb, ih hm]
+
+theorem find?_zipIdx_map (g : Nat → Nat) (n : ν) (l : List ν) (k : Nat) (h : n ∈ l) :
+    ((l.zipIdx k).map (fun (x, i) => (x, g i))).find? (fun p => decide (p.1 = n))
+      = some (n, g (k + l.idxOf n)) := by
+  induction l generalizing k with
+  | nil => cases h
+  | cons x l ih =>
+    rw [List.zipIdx_cons, List.map_cons, List.find?_cons, List.idxOf_cons]
+    by_cases hx : x = n
+    · simp [hx]
+    · have hm : n ∈ l := by
+        rcases List.mem_cons.1 h with e | e
+        · exact absurd e.symm hx
+        · exact e
+      have hb : (x == n) = false := by simp [hx]
+      simp only [hx, decide_false, hb, cond_false]
+      rw [ih (k+1) hm]
+      congr 3
+      omega
+
+/-! ### roots -/
+
+/-- parent pointers never point upwards -/
+def Below (parent : List Nat) : Prop := ∀ i, parent.getD i i ≤ i
+
+/-- canonical root: `i` steps of fuel always suffice under `Below` -/
+def root (parent : List Nat) (i : Nat) : Nat := findRoot parent i i
+
+theorem findRoot_fuel {parent : List Nat} (hB : Below parent) :
+    ∀ f1 f2 i, i ≤ f1 → i ≤ f2 → findRoot parent f1 i = findRoot parent f2 i := by
+  intro f1
+  induction f1 with
+  | zero =>
+    intro f2 i h1 h2
+    have : i = 0 := by omega
+    subst this
+    cases f2 with
+    | zero => rfl
+    | succ f2 =>
+      have := hB 0
+      simp only [findRoot]
+      have h0 : parent.getD 0 0 = 0 := by omega
+      rw [if_pos h0]
+  | succ f1 ih =>
+    intro f2 i h1 h2
+    cases f2 with
+    | zero =>
+      have : i = 0 := by omega
+      subst this
+      have := hB 0
+      simp only [findRoot]
+      have h0 : parent.getD 0 0 = 0 := by omega
+      rw [if_pos h0]
+    | succ f2 =>
+      simp only [findRoot]
+      by_cases hp : parent.getD i i = i
+      · rw [if_pos hp, if_pos hp]
+      · rw [if_neg hp, if_neg hp]
+        have := hB i
+        exact ih f2 _ (by omega) (by omega)
+
+theorem findRoot_eq_root {parent : List Nat} (hB : Below parent) (f i : Nat) (h : i ≤ f) :
+    findRoot parent f i = root parent i :=
+  findRoot_fuel hB f i i h (Nat.le_refl _)
+
+theorem root_eq {parent : List Nat} (hB : Below parent) (i : Nat) :
+    root parent i = if parent.getD i i = i then i else root parent (parent.getD i i) := by
+  rw [← findRoot_eq_root hB (i+1) i (by omega)]
+  simp only [findRoot]
+  by_cases hp : parent.getD i i = i
+  · simp only [if_pos hp]
+  · simp only [if_neg hp]
+    have := hB i
+    exact findRoot_eq_root hB _ _ (by omega)
+
+theorem root_of_fix {parent : List Nat} (hB : Below parent) {i : Nat} (h : parent.getD i i = i) :
+    root parent i = i := by
+  rw [root_eq hB, if_pos h]
+
+theorem root_le {parent : List Nat} (hB : Below parent) (i : Nat) : root parent i ≤ i := by
+  induction i using Nat.strongRecOn with
+  | _ i ih =>
+    rw [root_eq hB]
+    by_cases hp : parent.getD i i = i
+    · rw [if_pos hp]; exact Nat.le_refl _
+    · rw [if_neg hp]
+      have := hB i
+      have := ih (parent.getD i i) (by omega)
+      omega
+
+theorem root_fix {parent : List Nat} (hB : Below parent) (i : Nat) :
+    parent.getD (root parent i) (root parent i) = root parent i := by
+  induction i using Nat.strongRecOn with
+  | _ i ih =>
+    rw [root_eq hB]
+    by_cases hp : parent.getD i i = i
+    · rw [if_pos hp]; exact hp
+    · rw [if_neg hp]
+      have := hB i
+      exact ih (parent.getD i i) (by omega)
+
+theorem root_congr {p q : List Nat} (hB : Below p) (h : ∀ i, q.getD i i = p.getD i i) :
+    Below q ∧ ∀ i, root q i = root p i := by
+  have hQ : Below q := fun i => by rw [h]; exact hB i
+  refine ⟨hQ, ?_⟩
+  intro i
+  induction i using Nat.strongRecOn with
+  | _ i ih =>
+    rw [root_eq hB, root_eq hQ, h]
+    by_cases hp : p.getD i i = i
+    · simp only [if_pos hp]
+    · simp only [if_neg hp]
+      have := hB i
+      exact ih _ (by omega)
+
+/-- union of two roots `lo ≤ hi` -/
+theorem root_union {p q : List Nat} (hB : Below p) {lo hi : Nat} (hle : lo ≤ hi)
+    (hlo : p.getD lo lo = lo) (hhi : p.getD hi hi = hi)
+    (h : ∀ i, q.getD i i = if i = hi then lo else p.getD i i) :
+    Below q ∧ ∀ i, root q i = if root p i = hi then lo else root p i := by
+  have hQ : Below q := fun i => by
+    rw [h]; split
+    · omega
+    · exact hB i
+  refine ⟨hQ, ?_⟩
+  intro i
+  induction i using Nat.strongRecOn with
+  | _ i ih =>
+    rw [root_eq hQ, h]
+    by_cases hi' : i = hi
+    · subst hi'
+      simp only [if_true]
+      rw [root_of_fix hB hhi]
+      simp only [if_true]
+      by_cases hl : lo = i
+      · simp [hl]
+      · simp only [hl, if_false]
+        rw [ih lo (by omega), root_of_fix hB hlo]
+        simp [hl]
+    · simp only [hi', if_false]
+      by_cases hp : p.getD i i = i
+      · rw [root_of_fix hB hp]
+        simp only [if_pos hp, if_neg hi']
+      · simp only [if_neg hp]
+        have := hB i
+        rw [ih _ (by omega)]
+        rw [root_eq hB i]
+        simp only [if_neg hp]
+
+/-! ### the invariant -/
+
+structure Inv (d : Dist ν) : Prop where
+  nodup : d.names.Nodup
+  len : d.names.length = d.parent.length
+  below : Below d.parent
+
+/-- `x` and `y` are interned and in the same component -/
+def Same (d : Dist ν) (x y : ν) : Prop :=
+  x ∈ d.names ∧ y ∈ d.names ∧
+    root d.parent (d.names.idxOf x) = root d.parent (d.names.idxOf y)
+
+omit [DecidableEq ν] in
+theorem inv_new (t : Nat) : Inv (Dist.new t : Dist ν) :=
+  ⟨List.nodup_nil, rfl, fun i => by simp [Dist.new]⟩
+
+theorem intern_spec (d : Dist ν) (hI : Inv d) (n : ν) :
+    Inv (d.intern n).1 ∧ (d.intern n).1.threads = d.threads ∧ n ∈ (d.intern n).1.names ∧
+    (d.intern n).2 = (d.intern n).1.names.idxOf n ∧
+    (∀ x ∈ d.names, x ∈ (d.intern n).1.names ∧ (d.intern n).1.names.idxOf x = d.names.idxOf x) ∧
+    (∀ i, (d.intern n).1.parent.getD i i = d.parent.getD i i) := by
+  unfold Dist.intern
+  by_cases hm : n ∈ d.names
+  · rw [idxOf?_of_mem hm]
+    exact ⟨hI, rfl, hm, rfl, fun x hx => ⟨hx, rfl⟩, fun i => rfl⟩
+  · rw [List.idxOf?_eq_none_iff.2 hm]
+    refine ⟨⟨?_, ?_, ?_⟩, rfl, ?_, ?_, ?_, ?_⟩
+    · simp only
+      rw [List.nodup_append]
+      refine ⟨hI.nodup, by simp, ?_⟩
+      intro a ha b hb
+      simp at hb
+      subst hb
+      intro e; subst e; exact hm ha
+    · simp [hI.len]
+    · intro i
+      simp only
+      rw [getD_append_self]
+      exact hI.below i
+    · simp
+    · simp only
+      rw [List.idxOf_append, if_neg hm, hI.len]
+      simp
+    · intro x hx
+      simp only
+      refine ⟨by simp [hx], ?_⟩
+      rw [List.idxOf_append, if_pos hx]
+    · intro i
+      exact getD_append_self _ _
+
+theorem same_of_congr {d d' : Dist ν} (hI : Inv d)
+    (hn : ∀ x ∈ d.names, x ∈ d'.names ∧ d'.names.idxOf x = d.names.idxOf x)
+    (hp : ∀ i, d'.parent.getD i i = d.parent.getD i i) {x y : ν} (h : Same d x y) : Same d' x y := by
+  obtain ⟨hx, hy, hr⟩ := h
+  refine ⟨(hn x hx).1, (hn y hy).1, ?_⟩
+  rw [(hn x hx).2, (hn y hy).2, (root_congr hI.below hp).2, (root_congr hI.below hp).2]
+  exact hr
+
+theorem add_spec (d : Dist ν) (hI : Inv d) (a : ν) (b : Option ν) :
+    Inv (d.add a b) ∧ (d.add a b).threads = d.threads ∧ a ∈ (d.add a b).names ∧
+    (∀ x ∈ d.names, x ∈ (d.add a b).names) ∧
+    (∀ x y, Same d x y → Same (d.add a b) x y) ∧
+    (∀ b', b = some b' → Same (d.add a b) a b') := by
+  obtain ⟨hI1, ht1, ha1, hi1, hn1, hp1⟩ := intern_spec d hI a
+  cases b with
+  | none =>
+    have e : d.add a none = (d.intern a).1 := rfl
+    rw [e]
+    exact ⟨hI1, ht1, ha1, fun x hx => (hn1 x hx).1, fun x y h => same_of_congr hI hn1 hp1 h,
+      fun b' hb => by cases hb⟩
+  | some b =>
+    obtain ⟨hI2, ht2, hb2, hi2, hn2, hp2⟩ := intern_spec (d.intern a).1 hI1 b
+    -- abbreviations
+    generalize hd1 : d.intern a = r1 at *
+    obtain ⟨d1, ia⟩ := r1
+    generalize hd2 : d1.intern b = r2 at *
+    obtain ⟨d2, ib⟩ := r2
+    simp only at hI1 ht1 ha1 hi1 hn1 hp1 hI2 ht2 hb2 hi2 hn2 hp2
+    have ha2 : a ∈ d2.names := (hn2 a ha1).1
+    have hia : ia = d2.names.idxOf a := by rw [(hn2 a ha1).2]; exact hi1
+    have hialt : ia < d2.parent.length := by
+      rw [hia, ← hI2.len]; exact List.idxOf_lt_length_of_mem ha2
+    have hiblt : ib < d2.parent.length := by
+      rw [hi2, ← hI2.len]; exact List.idxOf_lt_length_of_mem hb2
+    have hB := hI2.below
+    have hra : findRoot d2.parent d2.parent.length ia = root d2.parent ia :=
+      findRoot_eq_root hB _ _ (by omega)
+    have hrb : findRoot d2.parent d2.parent.length ib = root d2.parent ib :=
+      findRoot_eq_root hB _ _ (by omega)
+    have hS12 : ∀ x y, Same d x y → Same d2 x y := fun x y h =>
+      same_of_congr hI1 hn2 hp2 (same_of_congr hI hn1 hp1 h)
+    -- generic union step
+    have key : ∀ lo hi, lo ≤ hi → hi < d2.parent.length →
+        d2.parent.getD lo lo = lo → d2.parent.getD hi hi = hi →
+        ((root d2.parent ia = lo ∧ root d2.parent ib = hi) ∨
+          (root d2.parent ia = hi ∧ root d2.parent ib = lo)) →
+        let d3 : Dist ν := { d2 with parent := d2.parent.set hi lo }
+        Inv d3 ∧ d3.threads = d.threads ∧ a ∈ d3.names ∧ (∀ x ∈ d.names, x ∈ d3.names) ∧
+        (∀ x y, Same d x y → Same d3 x y) ∧ (∀ b', some b = some b' → Same d3 a b') := by
+      intro lo hi hle hlt hlo hhi hcase d3
+      have hq : ∀ i, d3.parent.getD i i = if i = hi then lo else d2.parent.getD i i := by
+        intro i
+        show (d2.parent.set hi lo).getD i i = _
+        rw [getD_set_self]
+        by_cases e : i = hi <;> simp [e, hlt]
+      obtain ⟨hB3, hr3⟩ := root_union hB hle hlo hhi hq
+      refine ⟨⟨hI2.nodup, ?_, hB3⟩, ?_, ha2, ?_, ?_, ?_⟩
+      · show d2.names.length = (d2.parent.set hi lo).length
+        simp [hI2.len]
+      · show d2.threads = d.threads
+        rw [ht2, ht1]
+      · intro x hx
+        exact (hn2 x (hn1 x hx).1).1
+      · intro x y h
+        obtain ⟨hx, hy, hr⟩ := hS12 x y h
+        refine ⟨hx, hy, ?_⟩
+        show root d3.parent (d2.names.idxOf x) = root d3.parent (d2.names.idxOf y)
+        rw [hr3, hr3, hr]
+      · intro b' hb'
+        cases hb'
+        refine ⟨ha2, hb2, ?_⟩
+        show root d3.parent (d2.names.idxOf a) = root d3.parent (d2.names.idxOf b)
+        rw [hr3, hr3, ← hia, ← hi2]
+        rcases hcase with ⟨e1, e2⟩ | ⟨e1, e2⟩
+        · rw [e1, e2]; simp
+        · rw [e1, e2]; simp
+    have e : d.add a (some b) =
+        if root d2.parent ia < root d2.parent ib
+        then { d2 with parent := d2.parent.set (root d2.parent ib) (root d2.parent ia) }
+        else { d2 with parent := d2.parent.set (root d2.parent ia) (root d2.parent ib) } := by
+      simp only [Dist.add, hd1, hd2, hra, hrb]
+    rw [e]
+    have hla := root_le hB ia
+    have hlb := root_le hB ib
+    split
+    · next hlt =>
+      exact key _ _ (by omega) (by omega) (root_fix hB ia) (root_fix hB ib) (Or.inl ⟨rfl, rfl⟩)
+    · next hge =>
+      exact key _ _ (by omega) (by omega) (root_fix hB ib) (root_fix hB ia) (Or.inr ⟨rfl, rfl⟩)
+
+theorem addAll_spec (pairs : List (ν × Option ν)) (d : Dist ν) (hI : Inv d) :
+    Inv (d.addAll pairs) ∧ (d.addAll pairs).threads = d.threads ∧
+    (∀ x ∈ d.names, x ∈ (d.addAll pairs).names) ∧
+    (∀ x y, Same d x y → Same (d.addAll pairs) x y) ∧
+    (∀ p ∈ pairs, p.1 ∈ (d.addAll pairs).names ∧ ∀ b, p.2 = some b → Same (d.addAll pairs) p.1 b) := by
+  induction pairs generalizing d with
+  | nil =>
+    exact ⟨hI, rfl, fun x hx => hx, fun x y h => h, fun p hp => by cases hp⟩
+  | cons p ps ih =>
+    obtain ⟨hI1, ht1, ha1, hn1, hs1, hb1⟩ := add_spec d hI p.1 p.2
+    obtain ⟨hI2, ht2, hn2, hs2, hp2⟩ := ih (d.add p.1 p.2) hI1
+    have e : d.addAll (p :: ps) = (d.add p.1 p.2).addAll ps := rfl
+    rw [e]
+    refine ⟨hI2, by rw [ht2, ht1], fun x hx => hn2 x (hn1 x hx), fun x y h => hs2 x y (hs1 x y h), ?_⟩
+    intro q hq
+    rcases List.mem_cons.1 hq with e | hq
+    · subst e
+      exact ⟨hn2 _ ha1, fun b hb => hs2 _ _ (hb1 b hb)⟩
+    · exact hp2 q hq
+
+/-! ### compression and `worker` -/
+
+theorem compress_spec {parent : List Nat} (hB : Below parent) :
+    ∀ k, k ≤ parent.length → (compress parent k).length = parent.length ∧
+      ∀ i, (compress parent k).getD i i = if i < k then root parent i else parent.getD i i := by
+  intro k
+  induction k with
+  | zero => intro _; exact ⟨rfl, fun i => by simp [compress]⟩
+  | succ k ih =>
+    intro hk
+    obtain ⟨hl, hg⟩ := ih (by omega)
+    have hpk : (compress parent k).getD k k = parent.getD k k := by rw [hg]; simp
+    simp only [compress, hpk]
+    have hb := hB k
+    by_cases hp : parent.getD k k = k
+    · simp only [hp, ne_eq, not_true_eq_false, if_false]
+      refine ⟨hl, ?_⟩
+      intro i
+      rw [hg]
+      by_cases h1 : i < k
+      · have : i < k + 1 := by omega
+        simp [h1, this]
+      · by_cases h2 : i = k
+        · subst h2
+          rw [if_neg h1, if_pos (Nat.lt_succ_self _), root_of_fix hB hp, hp]
+        · have : ¬ i < k + 1 := by omega
+          simp [h1, this]
+    · simp only [ne_eq, hp, not_false_eq_true, if_true]
+      refine ⟨by simp [hl], ?_⟩
+      intro i
+      rw [getD_set_self, hl, hg, hg]
+      have hlt : parent.getD k k < k := by omega
+      by_cases h2 : i = k
+      · subst h2
+        simp only [hlt, if_true, true_and]
+        have : i < parent.length := by omega
+        simp only [this, if_true, Nat.lt_succ_self]
+        rw [root_eq hB i, if_neg hp]
+      · simp only [h2, false_and, if_false]
+        by_cases h1 : i < k
+        · have : i < k + 1 := by omega
+          simp [h1, this]
+        · have : ¬ i < k + 1 := by omega
+          simp [h1, this]
+
+theorem worker_spec (d : Dist ν) (hI : Inv d) (n : ν) (hn : n ∈ d.names) :
+    d.worker n = some (root d.parent (d.names.idxOf n) % d.threads) := by
+  unfold Dist.worker Dist.build
+  simp only
+  have := find?_zipIdx_map
+    (fun i => (compress d.parent d.parent.length).getD i i % d.threads) n d.names 0 hn
+  rw [this]
+  simp only [Option.map_some, Nat.zero_add]
+  have hlt : d.names.idxOf n < d.parent.length := by
+    rw [← hI.len]; exact List.idxOf_lt_length_of_mem hn
+  rw [(compress_spec hI.below _ (Nat.le_refl _)).2]
+  simp [hlt]
+
+/-! ### reading `pairsOK` -/
+
+omit [DecidableEq ν] in
+theorem pairsOK_mem {t : Nat} {pairs : List (ν × Option ν)} {w : ν → Option Nat}
+    (h : pairsOK t pairs w = true) {p : ν × Option ν} (hp : p ∈ pairs) :
+    (∃ x, w p.1 = some x ∧ x < t) ∧
+    ∀ b, p.2 = some b → (∃ y, w b = some y ∧ y < t) ∧ w p.1 = w b := by
+  unfold pairsOK at h
+  have h1 := List.all_eq_true.1 h p hp
+  rw [Bool.and_eq_true] at h1
+  obtain ⟨ha, hb⟩ := h1
+  constructor
+  · cases hw : w p.1 with
+    | none => rw [hw] at ha; cases ha
+    | some x => rw [hw] at ha; exact ⟨x, rfl, of_decide_eq_true ha⟩
+  · intro b hb'
+    rw [hb'] at hb
+    simp only [Bool.and_eq_true] at hb
+    obtain ⟨hb1, hb2⟩ := hb
+    constructor
+    · cases hw : w b with
+      | none => rw [hw] at hb1; cases hb1
+      | some y => rw [hw] at hb1; exact ⟨y, rfl, of_decide_eq_true hb1⟩
+    · exact eq_of_beq hb2
+
+omit [DecidableEq ν] in
+theorem pairsOK_intro {t : Nat} {pairs : List (ν × Option ν)} {w : ν → Option Nat}
+    (h : ∀ p ∈ pairs, (∃ x, w p.1 = some x ∧ x < t) ∧
+      ∀ b, p.2 = some b → (∃ y, w b = some y ∧ y < t) ∧ w p.1 = w b) :
+    pairsOK t pairs w = true := by
+  unfold pairsOK
+  rw [List.all_eq_true]
+  intro p hp
+  obtain ⟨⟨x, hx, hxt⟩, hb⟩ := h p hp
+  rw [Bool.and_eq_true]
+  constructor
+  · rw [hx]; exact decide_eq_true hxt
+  · cases hp2 : p.2 with
+    | none => rfl
+    | some b =>
+      obtain ⟨⟨y, hy, hyt⟩, he⟩ := hb b hp2
+      simp only [Bool.and_eq_true]
+      constructor
+      · rw [hy]; exact decide_eq_true hyt
+      · rw [he]; exact beq_self_eq_true _
+
 end RQ
